@@ -450,7 +450,9 @@ def _division_connected(
     if use_graph_primitive:
         for i in range(num_regions):
             region = solver.bool_array(n)
-            solver.ensure(region == (division == i))
+            # `division` may be a plain sequence, for which `division == i` is not elementwise
+            for v in range(n):
+                solver.ensure(region[v] == (division[v] == i))
             _active_vertices_connected(solver, region.data, graph, use_graph_primitive=True)
 
             if not allow_empty_group:
